@@ -8,6 +8,7 @@ Record reqobs := {
 
 Inductive aevent :=
 | AVotes (votes : list maddr)
+| AVotes2 (votes1 votes2 : list maddr)   (* two lookups that end in the same loop iteration, each with its own votes *)
 | APing (from : maddr)
 | ARefresh
 | AOther.
@@ -100,6 +101,15 @@ Definition astep (own : maddr) (m : mode) (e : aevent) : mode * list maddr :=
       | Some a => if maddr_eqb a own then (fst (mstep m1 (MPingFrom own)), []) else (m1, [a])
       | None => (m1, [])
       end
+  | AVotes2 v1 v2 =>
+      (* Core::cleanup_done_queries goes through the finished lookups one after the other; the address that changed last is
+         the one that is pinged *)
+      let '(m1, p1) := mstep m (MLookupDone (best_vote v1)) in
+      let '(m2, p2) := mstep m1 (MLookupDone (best_vote v2)) in
+      match (match p2 with Some a => Some a | None => p1 end) with
+      | Some a => if maddr_eqb a own then (fst (mstep m2 (MPingFrom own)), []) else (m2, [a])
+      | None => (m2, [])
+      end
   | APing f => (fst (mstep m (MPingFrom f)), [])
   | ARefresh => (fst (mstep m MRefresh), [])
   | AOther => (m, [])
@@ -113,7 +123,10 @@ Fixpoint adapt_model (own : maddr) (m : mode) (steps : list (aevent * amode * li
   | [] => true
   | (e, o, pings) :: r =>
       let '(m1, ps) := astep own m e in
-      amode_eqb m1 o && maddrs_eqb ps pings && adapt_model own m1 r
+      (* the order in which two lookups that end together are gone through is the iteration order of a hash map: either *)
+      let '(m1', ps') := match e with AVotes2 v1 v2 => astep own m (AVotes2 v2 v1) | _ => (m1, ps) end in
+      if amode_eqb m1 o && maddrs_eqb ps pings then adapt_model own m1 r
+      else amode_eqb m1' o && maddrs_eqb ps' pings && adapt_model own m1' r
   end.
 
 (* the property on the observations alone: the node is in server mode only if it was configured so, or —
@@ -126,7 +139,11 @@ Fixpoint adapt_pb (own : maddr) (server0 : bool) (prev_pub : option maddr) (conf
   | (e, (pa, fw, sm), pings) :: r =>
       let changed := negb (omaddr_eqb pa prev_pub) in
       let learned_from_votes :=
-        match e, pa with AVotes vs, Some a => existsb (maddr_eqb a) vs | _, _ => false end in
+        match e, pa with
+        | AVotes vs, Some a => existsb (maddr_eqb a) vs
+        | AVotes2 v1 v2, Some a => existsb (maddr_eqb a) (v1 ++ v2)
+        | _, _ => false
+        end in
       let confirmed' :=
         if changed then (match pa with Some a => maddr_eqb a own | None => false end)   (* own address: the self ping arrives *)
         else confirmed || match e, pa with APing f, Some a => maddr_eqb f a | _, _ => false end in
@@ -139,6 +156,15 @@ Fixpoint adapt_pb (own : maddr) (server0 : bool) (prev_pub : option maddr) (conf
              match best_vote vs with
              | Some a =>
                  omaddr_eqb pa (Some a)
+                 && (if omaddr_eqb prev_pub (Some a) then true
+                     else if maddr_eqb a own then negb fw else fw && existsb (maddr_eqb a) pings)
+             | None => true
+             end
+         (* two lookups ending together that disagree: whichever address the node ends up with is the one it probes *)
+         | AVotes2 v1 v2 =>
+             match pa with
+             | Some a =>
+                 (omaddr_eqb (best_vote v1) (Some a) || omaddr_eqb (best_vote v2) (Some a) || omaddr_eqb prev_pub (Some a))
                  && (if omaddr_eqb prev_pub (Some a) then true
                      else if maddr_eqb a own then negb fw else fw && existsb (maddr_eqb a) pings)
              | None => true
